@@ -390,7 +390,7 @@ def c12(ctx):
         return
     # long keys (1018..1024 bytes, 0xFF heavy), keys spelled like the bookkeeping keys, extreme bounds on the real FSM
     n, ops = (40, 40) if q else (2000, 60)
-    ctx.gv("long-key-histories", "Trace_Table", ["table", "--mode", "hist", "--class", "1", "--seed", str(seed()), "--n", str(n), "--ops", str(ops)])
+    ctx.gv("long-key-histories", "Trace_Table", ["table", "--mode", "hist", "--class", "1", "--nobigprev", "--seed", str(seed()), "--n", str(n), "--ops", str(ops)])
 
 
 @check("C13")
@@ -502,7 +502,7 @@ def c11(ctx):
         return
     # the apply side: the table state machine tells the applied-index listener (which feeds the queue), once per Update,
     # the leader index the batch recorded - random logs with leader indices, reopen and snapshot transfers on real FSMs
-    ctx.gv("apply-notifications", "Trace_Table", ["table", "--mode", "converge", "--seed", str(seed() + 3), "--n", str(150 if q else 2000), "--ops", "14"])
+    ctx.gv("apply-notifications", "Trace_Table", ["table", "--mode", "converge", "--nobigprev", "--seed", str(seed() + 3), "--n", str(150 if q else 2000), "--ops", "14"])
 
 
 @check("C06")
@@ -540,7 +540,7 @@ def c07(ctx):
     # ordinary writes included): such settings are outside the property; keep threshold 0 (unlimited) and >= 2 units
     adv = [a for a in adv if json.loads(a)["th"] != 1][:60 if q else 1200]
     # point in time under a back-to-back writer at the state machine: 60 command snapshots per behaviour
-    if not ctx.gv("snapshots-under-writes", "Trace_Table", ["table", "--mode", "snapconc", "--seed", str(seed()), "--n", str(8 if q else 80), "--ops", "300"], racy=True):
+    if not ctx.gv("snapshots-under-writes", "Trace_Table", ["table", "--mode", "snapconc", "--nobigprev", "--seed", str(seed()), "--n", str(8 if q else 80), "--ops", "300"], racy=True):
         return
     if not ctx.gv("tlc-streams", "Trace_Restore", ["restore", "--seed", str(seed()), "--pit", str(6 if q else 60)], inputs=adv, racy=True):
         return
@@ -567,7 +567,7 @@ def c04(ctx):
         return
     # "data + index in one batch" observed without a crash: command snapshots (index + content of one Pebble snapshot)
     # taken while a writer applies entries that mix blind writes and in-batch reads
-    ctx.gv("apply-atomicity-under-snapshots", "Trace_Table", ["table", "--mode", "snapconc", "--seed", str(seed()), "--n", str(6 if q else 60), "--ops", "300"], racy=True)
+    ctx.gv("apply-atomicity-under-snapshots", "Trace_Table", ["table", "--mode", "snapconc", "--nobigprev", "--seed", str(seed()), "--n", str(6 if q else 60), "--ops", "300"], racy=True)
 
 
 @check("C08")
@@ -578,7 +578,7 @@ def c08(ctx):
     ctx.design("MC_Converge", "MC_Converge_quick.cfg")
     # faithful + point-in-time + cross-format: snapshot transfers between real replicas with writes between prepare and save
     n, ops = (120, 14) if q else (6000, 18)
-    if not ctx.gv("snapshot-transfers", "Trace_Table", ["table", "--mode", "converge", "--seed", str(seed() + 17), "--n", str(n), "--ops", str(ops)]):
+    if not ctx.gv("snapshot-transfers", "Trace_Table", ["table", "--mode", "converge", "--nobigprev", "--seed", str(seed() + 17), "--n", str(n), "--ops", str(ops)]):
         return
     # interrupted installs: stop signal at many byte positions of both formats; lazy read across an install (child process)
     if not ctx.gv("stopped-installs", "Trace_Table", ["disk", "--mode", "install", "--seed", str(seed()), "--n", str(8 if q else 250)]):
